@@ -533,13 +533,15 @@ def judge(res, cases, outs, tag):
     return alarmed
 
 
-def correspond(res, n, long_cases, long_ops, n_nested):
-    rng = random.Random(res.seed * 6151 + 14)
-    corpus = json.load(open(core.VERIF + '/corpus/C14.json'))
+def correspond(res, n, long_cases, long_ops, n_nested, search=0):
+    """search = 0: the regular run; search = k > 0: k-th extra round of the failing-input search (other seeds,
+    no corpus, no enumerated cases twice)"""
+    rng = random.Random(res.seed * 6151 + 14 + 104729 * search)
+    corpus = json.load(open(core.VERIF + '/corpus/C14.json')) if not search else []
     cases = corpus + gen_cases(rng, n, long_cases, long_ops)
     # frees issued from inside malloc/free by the same thread: their own generator (the histories above
     # are the same as before for a given seed)
-    cases += gen_nested_cases(random.Random(res.seed * 7919 + 1414), n_nested)
+    cases += gen_nested_cases(random.Random(res.seed * 7919 + 1414 + 104729 * search), n_nested)
     outs = core.run_driver('heap_driver.py', cases)
     judge(res, cases, outs, '')
     cases = [c for c, o in zip(cases, outs) if not o.get('skipped')]
@@ -634,10 +636,11 @@ def run(res):
         n, lc, lo, nn = 260, 2, 400, 200
     else:
         n, lc, lo, nn = 6000, 30, 2000, 4000
-    if res.broken:
-        n = max(n, 3000)      # failing-input search
-        nn = max(nn, 1500)
     correspond(res, n, lc, lo, nn)
+    if res.broken and not res.alarms and res.tier == 'quick':
+        # failing-input search: a proof, the translation or the correspondence is broken but no history on
+        # which the property itself fails has been found yet -- look harder
+        correspond(res, 3000, 2, 400, 1500, search=1)
     if res.tier != 'quick':
         real_arena(res, 300)
         threads_scenario(res, 6)
